@@ -31,8 +31,12 @@ func init() {
 			A int
 		}
 		json.Unmarshal(raw, &cs)
+		if cs.A >= 100 {
+			return c04Compare(string(cs.F), [][]interface{}{{4, 5, "six" + mEnd}, {"a", 2, 3.5}, {7}}[cs.A-100])
+		}
 		return c04Compare(string(cs.F), c04ArgLists()[cs.A])
 	}
+	replayers["C04/indexed"] = replayers["C04/programs"]
 	replayers["C04/pairs"] = func(c *Ctx, raw json.RawMessage) string {
 		var cs struct {
 			D1, D2 Directive
@@ -205,6 +209,16 @@ func checkC04(c *Ctx) {
 			w.Eval()
 			if dt := c04Compare(f, al[ai], w.SeenS); dt != "" {
 				w.Fail("program", map[string]interface{}{"F": []byte(f), "A": ai, "quoted": q(f)}, dt)
+			}
+		}
+	})
+	ifs := indexedFormats(c.Quick())
+	ial := [][]interface{}{{4, 5, "six" + mEnd}, {"a", 2, 3.5}, {7}}
+	c.Section("C04/indexed", map[string]interface{}{"formats": len(ifs), "arg_lists": len(ial), "what": "2- and 3-directive formats with explicit indexes, star/indexed-star widths, precisions, slow-path verbs"}, len(ifs), func(i int, w *Worker) {
+		for ai := range ial {
+			w.Eval()
+			if dt := c04Compare(ifs[i], ial[ai], w.SeenS); dt != "" {
+				w.Fail("indexed", map[string]interface{}{"F": []byte(ifs[i]), "A": 100 + ai, "quoted": q(ifs[i])}, dt)
 			}
 		}
 	})
